@@ -136,7 +136,15 @@ func c03Gen(rng *verifsim.RNG, idx int, tier string) *Plan {
 		}
 		p.Actions = append(p.Actions, rsAction(4300*nsMs+jitter(rng), hostAddr(2)))
 	}
-	if rng.Bool(0.1) {
+	if rng.Bool(0.08) {
+		// the wildcard beside static servers, one of which is the very address
+		// the wildcard resolves to: RA after RA means the same
+		p.Class += "+wildcard-also-static"
+		s.RDNSS = append(s.RDNSS, RDNSSSpec{Servers: []string{"2001:db8:53::2", "::", iw.LL, "2001:db8:53::1"}})
+		for i := 0; i < 3; i++ {
+			p.Actions = append(p.Actions, rsAction(int64(rng.Dur(100*time.Millisecond, 4*time.Second))+jitter(rng), hostAddr(i)))
+		}
+	} else if rng.Bool(0.1) {
 		// a system state in which the :: wildcard has nothing usable to offer
 		// (DAD still running, only deprecated/temporary addresses): the daemon may
 		// refuse to advertise, but must not put an unusable value on the wire
